@@ -49,6 +49,31 @@ def one(c, src, tag, files=None):
                 c.violation('pcap-option:' + ' '.join(flags), 'with %s a successful run writes a different file (%s bytes vs %d)' % (' '.join(flags), len(other['pcap']) if other['pcap'] is not None else None, len(impl['file'] or b'')),
                             dict(src=src.decode('utf-8', 'replace'), flags=flags))
         c.count('option-variants')
+    if impl['outcome'][0] == 'success' and prefill is None and c.evaluations % 5 == 2 and files is None:
+        # the source handed over through something that is not a regular file (a pipe on /dev/stdin, a named pipe): what is
+        # compiled is the text that arrives, so the output is the same file
+        import os, subprocess, tempfile, shutil, threading
+        d = tempfile.mkdtemp(prefix='rspipe')
+        try:
+            out = os.path.join(d, 'o.pcap')
+            p1 = subprocess.run([core.CLI, '-o', out, '/dev/stdin'], input=src, capture_output=True, cwd=d, timeout=120)
+            got1 = open(out, 'rb').read() if os.path.exists(out) else None
+            fifo = os.path.join(d, 'src.rsyn'); os.mkfifo(fifo)
+            def feed():
+                with open(fifo, 'wb') as fh:
+                    for k in range(0, len(src), 37): fh.write(src[k:k + 37]); fh.flush()      # in small pieces
+            th = threading.Thread(target=feed); th.start()
+            out2 = os.path.join(d, 'o2.pcap')
+            p2 = subprocess.run([core.CLI, '-o', out2, fifo], capture_output=True, cwd=d, timeout=120)
+            th.join(10)
+            got2 = open(out2, 'rb').read() if os.path.exists(out2) else None
+            for how, pr, got in (('a pipe on /dev/stdin', p1, got1), ('a named pipe', p2, got2)):
+                if pr.returncode != 0 or got != impl['file']:
+                    c.violation('pcap-source-kind', 'the same source read from %s compiles to something else (exit %d, %s bytes vs %d)' % (how, pr.returncode, len(got) if got is not None else None, len(impl['file'])),
+                                dict(src=src.decode('utf-8', 'replace'), via=how))
+        finally:
+            shutil.rmtree(d, ignore_errors=True)
+        c.count('source-through-pipes')
     key = None
     if recs:
         key = (len(recs), sum(r[1] for r in recs), hash(src))
